@@ -81,8 +81,8 @@ impl LangInterpreter for Portuguese {
             "nove" if b.peek(2) != b"10" && !smaller_blocked => b.put(b"9"),
             "non" if !smaller_blocked => b.put(b"9"),
             "dez" | "décim" if !smaller_blocked => b.put(b"10"),
-            "onze" if !smaller_blocked => b.put(b"11"),
-            "doze" if !smaller_blocked => b.put(b"12"),
+            "onze" | "undécim" if !smaller_blocked => b.put(b"11"),
+            "doze" | "duodécim" if !smaller_blocked => b.put(b"12"),
             "treze" if !smaller_blocked => b.put(b"13"),
             "catorze" | "quatorze" if !smaller_blocked => b.put(b"14"),
             "quinze" if !smaller_blocked => b.put(b"15"),
@@ -106,7 +106,7 @@ impl LangInterpreter for Portuguese {
             }
             "cent" | "centésim" if !only_multipliers => b.put(b"100"),
             "duzent" | "ducentésim" if !only_multipliers => b.put(b"200"),
-            "trezent" | "trecentésim" if !only_multipliers => b.put(b"300"),
+            "trezent" | "trecentésim" | "tricentésim" if !only_multipliers => b.put(b"300"),
             "quatrocent" | "quadringentésim" if !only_multipliers => b.put(b"400"),
             "quinhent" | "quingentésim" | "qüingentésim" if !only_multipliers => b.put(b"500"),
             "seiscent" | "sexcentésim" | "seiscentésim" if !only_multipliers => b.put(b"600"),
